@@ -534,13 +534,13 @@ func ruleTShape(w *World, r *Report) {
 		}
 		nret := 0
 		for _, b := range fn.Blocks {
-			ret, ok := b.Instrs[len(b.Instrs)-1].(*ssa.Return)
+			ret, ok := normalReturn(b)
 			if !ok || len(ret.Results) != 2 {
 				continue
 			}
 			nret++
 			key := fmt.Sprintf("%s:return", fnName(fn))
-			r0, r1 := strip(ret.Results[0]), strip(ret.Results[1])
+			r0, r1 := strip(retVal(ret, 0)), strip(retVal(ret, 1))
 			switch {
 			case isNilConst(r0) && !isNilConst(r1):
 				if w.nonNilByConstruction(r1, b) {
@@ -608,12 +608,12 @@ func ruleTShape(w *World, r *Report) {
 			r.ok("T-SHAPE", fnName(fn)+":nopanic", w.pos(fn.Pos()), "no panic instruction")
 		}
 		for _, b := range fn.Blocks {
-			ret, ok := b.Instrs[len(b.Instrs)-1].(*ssa.Return)
+			ret, ok := normalReturn(b)
 			if !ok || len(ret.Results) != 1 {
 				continue
 			}
 			key := fnName(fn) + ":return"
-			v := strip(ret.Results[0])
+			v := strip(retVal(ret, 0))
 			if a, ok := v.(*ssa.Alloc); ok {
 				var qv ssa.Value
 				for _, u := range uses(a) {
